@@ -215,6 +215,65 @@ def rmSize (s : St) : Nat := (s.map (·.inputs.length)).sum
 
 end InitInputs
 
+/-! ### RemoveUnusedNodesPass on a graph without subgraphs (unused_removal.py 82-141)
+as an instance of `countingPass`.  The schema-driven removal of unused optional outputs
+(lines 21-79) is not modelled. -/
+namespace Dce
+
+structure Node where
+  id : Nat
+  inputs : List (Option Nat)
+  outputs : List Nat
+  deriving DecidableEq, Repr, Inhabited
+
+/-- nodes in graph order, graph outputs, graph inputs, initializer values (value identities) -/
+structure St where
+  nodes : List Node
+  outs : List Nat
+  ins : List Nat
+  inits : List Nat
+  deriving DecidableEq, Repr, Inhabited
+
+inductive Site where
+  | node (id : Nat)
+  | init (v : Nat)
+  deriving Repr
+
+/-- `bool(value.uses())` -/
+def used (s : St) (v : Nat) : Bool := s.nodes.any (fun n => n.inputs.contains (some v))
+
+/-- lines 98-102: no output is a graph output or has a use -/
+def removable (s : St) (n : Node) : Bool := n.outputs.all (fun o => !s.outs.contains o && !used s o)
+
+/-- `_remove_trailing_empty_inputs` (lines 82-93) -/
+def trimmed (l : List (Option Nat)) : List (Option Nat) := (l.reverse.dropWhile (· == none)).reverse
+
+/-- `reversed(graph)` (line 97), then `list(initializers.values())` (line 131) -/
+def sites (s : St) : List Site :=
+  s.nodes.reverse.map (fun n => Site.node n.id) ++ s.inits.map Site.init
+
+def rw : Site → St → Option St
+  | .node id, s =>
+    match s.nodes.find? (fun n => n.id == id) with
+    | none => none
+    | some n =>
+      if removable s n then some { s with nodes := s.nodes.filter (fun m => m.id != id) }
+      else if (trimmed n.inputs).length < n.inputs.length then
+        some { s with nodes := s.nodes.map (fun m => if m.id == id then { m with inputs := trimmed m.inputs } else m) }
+      else none
+  | .init v, s =>
+    if s.inits.contains v && !used s v && !s.outs.contains v && !s.ins.contains v then
+      some { s with inits := s.inits.erase v }
+    else none
+
+def removeUnusedNodes (s : St) : St × Bool := countingPass sites rw s
+
+/-- the measure: nodes + initializers + input slots -/
+def size (s : St) : Nat :=
+  s.nodes.length + s.inits.length + (s.nodes.map (fun n => n.inputs.length)).sum
+
+end Dce
+
 /-! ### ClearMetadataAndDocStringPass (clear_metadata_and_docstring.py 20-60) -/
 namespace ClearMeta
 
